@@ -40,6 +40,14 @@ DEFS_A = {
     "Pc": {"type": "object", "properties": {"x": {"type": "integer"},
                                             "c": {"allOf": [{"$ref": "#/definitions/Color"}], "default": "green"}},
            "required": ["x"]},
+    # recursive types whose member default contains the type itself (fix fd85c79)
+    "RecT": {"type": "object", "properties": {
+        "kids": {"type": "array", "items": {"$ref": "#/definitions/RecT"}},
+        "next": {"$ref": "#/definitions/RecT", "default": {"kids": []}}}},
+    "RecN": {"type": "object", "properties": {
+        "left": {"$ref": "#/definitions/RecN", "default": {}},
+        "right": {"$ref": "#/definitions/RecN", "default": {}},
+        "v": {"type": "integer"}}},
     "Closed": {"type": "object", "properties": {"a": {"type": "string"}}, "additionalProperties": False},
     "WithExtra": {"type": "object", "properties": {"k": {"type": "integer"}}, "required": ["k"],
                   "additionalProperties": {"type": "string"}},
@@ -183,7 +191,7 @@ class ValueGen:
                 continue
             wire = rn["s"] if rn["k"] == "rename" else p["name"]
             req = p["state"]["k"] == "required"
-            if (req and not drop_required) or self.rnd.random() < 0.5:
+            if (req and not drop_required) or (depth > 0 and self.rnd.random() < 0.5):
                 o[wire] = self.valid(p["type_id"], depth - 1)
         return o
 
@@ -413,7 +421,7 @@ import subprocess
 import tocoq
 import vlib
 
-FUEL = 40
+FUEL = 64
 MUT = os.environ.get("C06_MUTATE", "")
 
 
@@ -598,6 +606,10 @@ KINDS = {
                       [{"pt": {}}, {"pt": {"x": 1}, "c": "purple"}]),
     "struct_reqonly": (R("Inner"), [{"n": 1, "flag": False}, {"n": -5}], [{"n": 300}, {"flag": True}]),
     "struct_member_enum_default": (R("Pc"), [{"x": 1, "c": "red"}, {"x": 1}], [{}, {"x": 1, "c": "purple"}]),
+    # recursive types whose member default contains the type (fix fd85c79): must render and compile; the realised
+    # default may diverge at run time and is NOT executed (NO_EXEC)
+    "rec_member_default": (R("RecT"), [{"kids": []}, {"kids": [{"kids": []}], "next": {"kids": []}}], [{"kids": 5}]),
+    "rec_two_members": (R("RecN"), [{"v": 1}, {"left": {"v": 2}}], [{"v": "x"}]),
     "boxed": (R("Node"), [{"v": 1}, {"v": 1, "next": {"v": 2}}], [{"v": 1, "next": {}}, {"next": {"v": 2}}]),
     "enum_ext": (R("Ext"), ["Unit", {"One": 1}, {"Two": [1, "t"]}, {"Rec": {"p": 1}}, {"Rec": {"p": 1, "q": "s"}}],
                  ["Nope", {"One": "s"}, {"Two": [1]}, {"Rec": {}}, {"Unit": None}, "One"]),
@@ -638,7 +650,8 @@ KINDS.update({
     "len_2_4": ({"type": "string", "minLength": 2, "maxLength": 4},
                 [c * 2 for c in WIDTHS] + [c * 4 for c in WIDTHS], [c for c in WIDTHS] + [c * 5 for c in WIDTHS]),
 })
-ALWAYS_FULL = ("len_",)      # kinds run exhaustively in every tier
+NO_EXEC = ("rec_",)          # kinds whose generated code is compiled but never executed
+ALWAYS_FULL = ("len_", "rec_")      # kinds run exhaustively in every tier
 EXPECT_ACCEPT = ("len_",)    # kinds whose VALID defaults must be accepted and honoured (a rejection is reported)
 
 ALL_DEFS = dict(DEFS_A)
@@ -847,6 +860,8 @@ def run_k5(ctx, cases, name=None):
         if w.status[i] != "ok":
             continue
         m = c["meta"]
+        if m["kind"].startswith(NO_EXEC):
+            continue
         if m["pos"] in ("inline", "ref"):
             reqs.append({"m": i, "t": "T", "op": "de", "input": "{}", "what": "serde-missing-member"})
             reqs.append({"m": i, "t": "T", "op": "de", "input": json.dumps({"p": m["default"]}), "what": "expected-fill"})
@@ -901,6 +916,10 @@ def run_k5(ctx, cases, name=None):
             continue
         if (i, "bld") in w.chunk_failures:
             rec["viol"].append({"kind": "builder-chunk-uncompilable", "errors": w.chunk_failures[(i, "bld")][:2]})
+        if m["kind"].startswith(NO_EXEC):
+            rec["realised"].append(("not-executed", "compiled"))
+            rec["outcome"] = "compiled-not-executed"
+            continue
         obs = by_case.get(i, [])
         # what serde itself makes of the schema default when it is written out in full: the reference for
         # "filling of nested defaults" (absent when the default does not deserialise)
@@ -1283,6 +1302,8 @@ def model_vs_world(ctx, recs, w, tag="c06mw"):
         if typed == "T" and compiled and m[3].startswith("ok:"):
             ev = tocoq.unshow_json(m[3][3:])
             for what, real in rec["realised"]:
+                if what == "not-executed":
+                    continue
                 if real in (ABSENT, "panic", "no-impl") or isinstance(real, dict) and "err" in real and len(real) == 1:
                     continue
                 if not approx(tocoq.canon(ev) if False else ev_plain(ev), real) or not approx(ev_plain(ev), real):
@@ -1457,11 +1478,6 @@ def run_combo(ctx, cases):
 
 
 def classify_combo(rec):
-    """finding C06-F14: the definition-level default of an OBJECT definition is dropped (convert_ref_type overwrites the
-    default the struct took from its schema with the empty metadata convert_object returns)"""
-    m = rec["meta"]
-    kinds = {v["kind"] for v in rec["viol"]}
-    if m["shape"] == "struct" and m["pos"] == "definition" and m["type_default"] is not None and \
-            not rec["type_default_retained"] and kinds <= {"type-default-dropped", "invalid-type-default-accepted"}:
-        return "C06-F14"
+    """no open class here: F14 (definition-level default of an object definition dropped) is FIXED by a543329, so a
+    reproduction is a VIOLATION"""
     return None
